@@ -123,7 +123,12 @@ def entry_flags(ctx, prop, rule):
     # size and encode use the same presence conditions
     for s_, (f, cls, k, ge) in zip(siz, secs_e):
         gs = s_.guards[-1] if s_.guards else None
-        same = gs is not None and ge is not None and term_sig(gs[1]) == term_sig(ge[1]) and gs[2] == ge[2] and s_.field == f
+        def cg(g):
+            # canonical (condition, truth): `!x` on the otherwise edge is `x` on the 0 edge
+            t_, neg = canon_cond(g[1])
+            truth = g[2] != 0
+            return term_sig(t_), (not truth) if neg else truth
+        same = gs is not None and ge is not None and cg(gs) == cg(ge) and s_.field == f
         ctx.check(prop, rule, "Entry: encoded_size counts section %s under encode's condition" % f, same, "same presence condition (%s)" % (term_str(ge[1])[:50] if ge else None),
                   "Entry::encoded_size counts `%s` under %s, encode writes it under %s" % (f, (term_str(gs[1]), gs[2]) if gs else None, (term_str(ge[1]), ge[2]) if ge else None), key="%s|%s|Entry|size condition %s" % (prop, rule, f))
     ctx.check(prop, rule, "Entry::decode consumes the flag byte first", dec and dec[0].cls == ("fixed", 1) and enc[0].cls == ("fixed", 1), "one flag byte leads the entry", "flag byte position differs between encode and decode")
